@@ -2128,8 +2128,10 @@ func (f *File) ReadFrom(r io.Reader) (int64, error) {
 			m, err2 := f.writeChunkAt(ch, b[:n], f.offset)
 			f.offset += int64(m)
 
-			if err == nil {
-				err = err2
+			if err2 != nil {
+				// a failed write must be reported even if the reader has reached its end
+				// (io.ReadFull returns io.ErrUnexpectedEOF for the final short chunk).
+				return read, err2
 			}
 		}
 
@@ -2277,8 +2279,6 @@ func (f *File) Sync() error {
 	}
 }
 
-// normaliseError normalises an error into a more standard form that can be
-// checked against stdlib errors like io.EOF or os.ErrNotExist.
 // statusError decodes a status reply to a request that expects a value in its reply.
 // An OK status carries no value, so it is reported as an error rather than as (zero value, nil).
 func statusError(id uint32, data []byte) error {
@@ -2288,6 +2288,8 @@ func statusError(id uint32, data []byte) error {
 	return errors.New("sftp: unexpected SSH_FX_OK status in reply to a request that expects a value")
 }
 
+// normaliseError normalises an error into a more standard form that can be
+// checked against stdlib errors like io.EOF or os.ErrNotExist.
 func normaliseError(err error) error {
 	switch err := err.(type) {
 	case *StatusError:
